@@ -470,4 +470,640 @@ theorem sel2_star_explicit_path (cls : Cls) (kvs : List (Str × Val)) (p : Pos) 
     have hlen := mergedToks_length_le (p' ++ [.idx n])
     exact star_spelled (.dict cls kvs) rl f hsp (mergedToks_ne_nil _ hne) hrs hf fuel (by omega) _ (Or.inl rfl)
 
+/-! ### the `found` text of a complete walk, and the `'..'` step at any position -/
+
+theorem sel2_upFound_key (par : PRef) (tok found : Str) (c : Val) (hk : KeyTok tok) :
+    upFound { parent := par, nameIdx := some tok, value := c, found := found, notFound := Option.none } = found := by
+  simp only [upFound, isEmpty_false_of_ne hk.ne, Bool.false_eq_true, if_false, hk.split]
+
+theorem sel2_upFound_idx (par : PRef) (i : Int) (found : Str) (c : Val) :
+    upFound { parent := par, nameIdx := some (bracket (intStr i)), value := c, found := found, notFound := Option.none }
+      = found ++ bracket (intStr i) := by
+  have hbne : (bracket (intStr i)).isEmpty = false := by simp [bracket]
+  simp only [upFound, hbne, Bool.false_eq_true, if_false, split_bracket_intStr, List.isEmpty_nil, if_true]
+
+/-- `find_spells` with the text of the walk: what `'..'` would continue with after resolving `toks` is
+`found ++ w` (the index of a final index step included — fix C06-b) -/
+theorem sel2_find_spellsF (root : Val) (rl : Bool) {toks : List Str} {v : Val} {p : Pos} {c : Val} {w : Str}
+    (h : SpellsF toks v p c w) : toks ≠ [] → ∀ (fuel : Nat) (q : Pos) (found : Str) (entry : Bool),
+      getAt root q = some v → fuel ≥ 2 * toks.length →
+      ∃ r, findD fuel root [] false entry toks (.at q) rl found = .ok (root, r) ∧ FoundAt root q p c r ∧
+        upFound r = found ++ w := by
+  induction h with
+  | nil v => intro h; exact absurd rfl h
+  | @key tok rest cls kvs c p d w hk hl hs ih =>
+    intro _ fuel q found entry hq hf
+    obtain ⟨f, rfl⟩ : ∃ f, fuel = f + 1 := ⟨fuel - 1, by simp at hf; omega⟩
+    by_cases hrest : rest = []
+    · subst hrest
+      cases hs
+      rw [find_key_last f root entry rl q found tok cls kvs _ hq hk hl]
+      refine ⟨_, rfl, ⟨rfl, rfl, [], .key tok, .dict cls kvs, tok, by simp, by simp, by simpa using hq, rfl, .key⟩, ?_⟩
+      rw [sel2_upFound_key _ _ _ _ hk]; simp
+    · rw [find_key_step f root entry rl q found tok rest cls kvs c hrest hq hk hl]
+      have hq' : getAt root (q ++ [.key tok]) = some c := by
+        rw [getAt_snoc, hq]; simp [child, hl]
+      obtain ⟨r, hr, ⟨hv, hnf, pp, s, pv, ni, hp, hpar, hpv, hni, hname⟩, hup⟩ :=
+        ih hrest f (q ++ [.key tok]) (found ++ slash ++ tok) false hq' (by simp at hf ⊢; omega)
+      refine ⟨r, hr, ⟨hv, hnf, .key tok :: pp, s, pv, ni, by simp [hp], by simpa using hpar, by simpa using hpv, hni, hname⟩, ?_⟩
+      rw [hup]; simp [List.append_assoc]
+  | @idx tok e i rest cls xs n c p d w hk hn hx hs ih =>
+    intro _ fuel q found entry hq hf
+    obtain ⟨f, rfl⟩ : ∃ f, fuel = f + 1 := ⟨fuel - 1, by simp at hf; omega⟩
+    by_cases hrest : rest = []
+    · subst hrest
+      cases hs
+      rw [find_idx_last f root entry rl q found tok e i cls xs n _ hq hk hn hx]
+      refine ⟨_, rfl, ⟨rfl, rfl, [], .idx n, .list cls xs, _, by simp, by simp, by simpa using hq, rfl, .idx hn⟩, ?_⟩
+      rw [sel2_upFound_idx]; simp
+    · rw [find_idx_step f root entry rl q found tok e i rest hrest cls xs n hq hk hn]
+      have hq' : getAt root (q ++ [.idx n]) = some c := by
+        rw [getAt_snoc, hq]; simp [child, hx]
+      obtain ⟨r, hr, ⟨hv, hnf, pp, s, pv, ni, hp, hpar, hpv, hni, hname⟩, hup⟩ :=
+        ih hrest f (q ++ [.idx n]) _ false hq' (by simp at hf ⊢; omega)
+      refine ⟨r, hr, ⟨hv, hnf, .idx n :: pp, s, pv, ni, by simp [hp], by simpa using hpar, by simpa using hpv, hni, hname⟩, ?_⟩
+      rw [hup]; simp [List.append_assoc]
+  | @keyIdx tok k e i rest cls kvs cls' xs n c p d w hk hl hn hx hs ih =>
+    intro _ fuel q found entry hq hf
+    obtain ⟨f, rfl⟩ : ∃ f, fuel = f + 2 := ⟨fuel - 2, by simp at hf; omega⟩
+    rw [find_keyidx_step (f + 1) root entry rl q found tok k e i rest cls kvs _ hq hk hl]
+    have hq1 : getAt root (q ++ [Seg.key k]) = some (.list cls' xs) := by
+      rw [getAt_snoc, hq]; simp [child, hl]
+    by_cases hrest : rest = []
+    · subst hrest
+      cases hs
+      rw [find_idx_last f root false rl (q ++ [Seg.key k]) _ (bracket e) e i cls' xs n _ hq1 hk.inner hn hx]
+      refine ⟨_, rfl, ⟨rfl, rfl, [.key k], .idx n, .list cls' xs, _, by simp, by simp, by simpa using hq1, rfl, .idx hn⟩, ?_⟩
+      rw [sel2_upFound_idx]; simp [List.append_assoc]
+    · rw [find_idx_step f root false rl (q ++ [Seg.key k]) _ (bracket e) e i rest hrest cls' xs n hq1 hk.inner hn]
+      have hq' : getAt root (q ++ [Seg.key k] ++ [Seg.idx n]) = some c := by
+        rw [getAt_snoc, hq1]; simp [child, hx]
+      obtain ⟨r, hr, ⟨hv, hnf, pp, s, pv, ni, hp, hpar, hpv, hni, hname⟩, hup⟩ :=
+        ih hrest f (q ++ [Seg.key k] ++ [Seg.idx n]) _ false hq' (by simp at hf ⊢; omega)
+      refine ⟨r, hr, ⟨hv, hnf, .key k :: .idx n :: pp, s, pv, ni, by simp [hp], by simpa using hpar, by simpa using hpv, hni, hname⟩, ?_⟩
+      rw [hup]; simp [List.append_assoc]
+
+/-- the `'..'` step, general form: the shortened `found` text resolves to an element of the list at `qq`
+(any index spelling the engine reports); the walk continues at that element with `upFound` -/
+theorem sel2_up_step (fuel : Nat) (root : Val) (entry rl : Bool) (pp : Pos) (pv : Val) (found : Str) (rest up : List Str)
+    (cur : Res) (qq : Pos) (lc : Cls) (rs : List Val) (i : Int) (j : Nat)
+    (hpar : getAt root pp = some pv)
+    (hup : ((splitChar '/' (fixBr found)).filter (fun t => !t.isEmpty)).dropLast = up)
+    (hinner : findD fuel root [] false false up (.at []) rl slash = .ok (root, cur))
+    (hcp : cur.parent = .at qq) (hni : cur.nameIdx = some (bracket (intStr i)))
+    (hqq : getAt root qq = some (.list lc rs)) (hn : normIdx i rs.length = some j) (hrest : rest ≠ []) :
+    findD (fuel + 1) root [] false entry (['.', '.'] :: rest) (.at pp) rl found
+      = findD fuel root [] false false rest (.at (qq ++ [Seg.idx j])) rl (upFound cur) := by
+  have hr : rest.length ≥ 1 := by cases rest with | nil => exact absurd rfl hrest | cons _ _ => simp
+  have hbne : (bracket (intStr i)).isEmpty = false := by simp [bracket]
+  rw [findD]
+  simp only [Bool.false_and, Bool.false_eq_true, if_false, valOf_at, hpar, split_up, List.isEmpty_cons,
+    Bool.not_false, Idx.truthy, if_true, hup, hinner, hcp, hni, hqq, hbne, split_bracket_intStr, List.isEmpty_nil,
+    Bool.not_true, n0eval_intStr, pyGetIdx, hn, childRef, hr, Bool.or_true, decide_true]
+
+theorem sel2_renderPos_append (p q : Pos) : renderPos (p ++ q) = renderPos p ++ renderPos q := by
+  simp [renderPos]
+
+theorem sel2_getAt_snoc_idx {root : Val} {p : Pos} {lc : Cls} {rs : List Val} {j : Nat} {rec : Val}
+    (hq : getAt root p = some (.list lc rs)) (hj : rs[j]? = some rec) : getAt root (p ++ [.idx j]) = some rec := by
+  rw [getAt_snoc, hq]; simp [child, hj]
+
+theorem sel2_lt_of_getElem? {α} {l : List α} {j : Nat} {x : α} (h : l[j]? = some x) : j < l.length := by
+  rcases Nat.lt_or_ge j l.length with h' | h'
+  · exact h'
+  · rw [List.getElem?_eq_none h'] at h; cases h
+
+/-- **`'..'` from the field `k` of record `j` of the list at `p`.**  The `found` text is the canonical path
+of `p[j]/k`; its last piece is dropped, `p[j]` is resolved again from the root, and the walk continues in
+that record with the canonical path of `p[j]` as `found`. -/
+theorem sel2_up_record (root : Val) (entry rl : Bool) (pp : Pos) (pv : Val) (p : Pos) (k : Str) (lc : Cls) (rs : List Val)
+    (j : Nat) (rec : Val) (rest : List Str) (hp : PlainPos p) (hk : PlainKey k)
+    (hpar : getAt root pp = some pv) (hq : getAt root p = some (.list lc rs)) (hj : rs[j]? = some rec)
+    (hrest : rest ≠ []) (fuel : Nat) (hfuel : fuel ≥ 2 * (p.length + 1)) :
+    findD (fuel + 1) root [] false entry (['.', '.'] :: rest) (.at pp) rl ('/' :: renderPos (p ++ [.idx j, .key k]))
+      = findD fuel root [] false false rest (.at (p ++ [Seg.idx j])) rl ('/' :: renderPos (p ++ [.idx j])) := by
+  have hlt := sel2_lt_of_getElem? hj
+  have hp1 : PlainPos (p ++ [.idx j]) := sel2_plainPos_of hp (by exact (trivial : PlainPos [.idx j]))
+  have hp2 : PlainPos (p ++ [.idx j, .key k]) := sel2_plainPos_of hp (by exact (⟨hk, trivial⟩ : PlainPos [.idx j, .key k]))
+  have hget1 : getAt root (p ++ [.idx j]) = some rec := sel2_getAt_snoc_idx hq hj
+  -- the pieces of `found`
+  have hup : ((splitChar '/' (fixBr ('/' :: renderPos (p ++ [.idx j, .key k])))).filter (fun t => !t.isEmpty)).dropLast
+      = mergedToks (p ++ [.idx j]) := by
+    rw [← sel2_render_embed, sel2_upToks _ (sel2_good_embed _ hp2), sel2_toks_embed,
+      show p ++ [Seg.idx j, Seg.key k] = (p ++ [.idx j]) ++ [.key k] by simp, mergedToks_snoc_key]
+    simp
+  -- the inner resolution of `p[j]` from the root
+  have hs := spellsF_merged (p ++ [.idx j]) root rec hp1 hget1
+  have hlen := mergedToks_length_le (p ++ [.idx j])
+  obtain ⟨cur, hcur, ⟨_, _, pp', s, pv', ni, hsplit, hcp, hpv', hni, hname⟩, hupf⟩ :=
+    sel2_find_spellsF root rl hs (mergedToks_ne_nil _ (by simp)) fuel [] slash false rfl (by simp at hlen ⊢; omega)
+  obtain ⟨rfl, hs'⟩ := List.append_inj' hsplit rfl
+  have hs'' : s = .idx j := by simpa using hs'.symm
+  subst hs''
+  simp only [List.nil_append] at hcp hpv'
+  rw [hq] at hpv'; cases hpv'
+  rcases hname.inv with ⟨_, _, _, h, _, _⟩ | ⟨cls, xs, n, i, h1, h2, h3, h4⟩
+  · cases h
+  · cases h1; cases h2; subst h3
+    rw [sel2_up_step fuel root entry rl pp pv _ rest _ cur p lc rs i j hpar hup hcur hcp hni hq h4 hrest, hupf]
+    rfl
+
+/-! ### one record of a predicate selection, at any position, with any continuation -/
+
+/-- what a record contributes to a predicate step followed by further steps: the outcome `out` of the
+further steps, if the record has `k` and its value passes the comparison -/
+def sel2Gate (k op : Str) (v : CondVal) (rec : Val) (out : Option Val) : Option Val :=
+  match rec with
+  | .dict _ kvs' =>
+    match lookup k kvs' with
+    | Option.none => Option.none
+    | some kv => if condTest op v kv then out else Option.none
+  | _ => Option.none
+
+theorem sel2_gate_fieldOf (k f op : Str) (v : CondVal) (rec : Val) :
+    sel2Gate k op v rec (fieldOf f rec) = condOutcome k f op v rec := by
+  cases rec with
+  | dict c kvs' => cases h : lookup k kvs' <;> simp [sel2Gate, condOutcome, fieldOf, h]
+  | _ => simp [sel2Gate, condOutcome]
+
+/-- a lookup outcome: the search leaves the tree unchanged and is found exactly when `out` is `some v`, then
+with value `v` -/
+def Sel2Out (root : Val) (x : PyM (Val × Res)) (out : Option Val) : Prop :=
+  ∃ r, x = .ok (root, r) ∧ r.isFound = out.isSome ∧ ∀ v, out = some v → r.value = v
+
+theorem sel2Out_notFound (root : Val) (par : PRef) (ni : Option Str) (v : Val) (found : Str) (nf : List Str) (hnf : nf ≠ []) :
+    Sel2Out root (.ok (root, { parent := par, nameIdx := ni, value := v, found := found, notFound := some nf })) Option.none :=
+  ⟨_, rfl, by simp [Res.isFound, isEmpty_false_of_ne hnf], by intro x hx; cases hx⟩
+
+/-- **`[text() op v]`, `'..'`, further steps** on the value of `k` of record `j` of the list at `p` -/
+theorem sel2_text_up (root : Val) (entry rl : Bool) (p : Pos) (k op tok : Str) (v : CondVal) (lc : Cls) (rs : List Val)
+    (j : Nat) (c : Cls) (kvs' : List (Str × Val)) (kv : Val) (rest : List Str) (out : Option Val) (F : Nat)
+    (hp : PlainPos p) (hk : PlainKey k)
+    (hq : getAt root p = some (.list lc rs)) (hj : rs[j]? = some (.dict c kvs')) (hlk : lookup k kvs' = some kv)
+    (hs : splitNameIndex tok = .ok ([], .cond sTextFn op v)) (hop : OpSpell op op) (hg : textGuard kv v = false)
+    (hrest : rest ≠ [])
+    (hcont : ∀ fu ≥ F, Sel2Out root
+      (findD fu root [] false false rest (.at (p ++ [.idx j])) rl ('/' :: renderPos (p ++ [.idx j]))) out)
+    (fuel : Nat) (hfuel : fuel ≥ F + 2 * p.length + 4) :
+    Sel2Out root
+      (findD fuel root [] false entry (tok :: ['.', '.'] :: rest) (.at (p ++ [.idx j] ++ [.key k])) rl
+        ('/' :: renderPos (p ++ [.idx j, .key k])))
+      (if condTest op v kv then out else Option.none) := by
+  obtain ⟨g, rfl⟩ : ∃ g, fuel = g + 2 := ⟨fuel - 2, by omega⟩
+  have hq1 : getAt root (p ++ [.idx j]) = some (.dict c kvs') := sel2_getAt_snoc_idx hq hj
+  have hq2 : getAt root (p ++ [.idx j] ++ [.key k]) = some kv := by
+    rw [getAt_snoc, hq1]; simp [child, hlk]
+  rw [find_text_step (g + 1) root entry rl _ kv _ tok op v _ hq2 hs hop hg]
+  cases hc : condTest op v kv with
+  | false =>
+    simp only [Bool.false_eq_true, if_false]
+    exact sel2Out_notFound root _ _ _ _ _ (by simp)
+  | true =>
+    simp only [if_true]
+    rw [sel2_up_record root false rl _ kv p k lc rs j _ rest hp hk hq2 hq hj hrest g (by omega)]
+    exact hcont g (by omega)
+
+theorem sel2_found_idx (p : Pos) (j : Nat) :
+    ('/' :: renderPos p) ++ bracket (intStr (j : Int)) = '/' :: renderPos (p ++ [.idx j]) := by
+  simp [renderPos, renderSeg, intStr_nat]
+
+theorem sel2_found_idx_key (p : Pos) (j : Nat) (k : Str) :
+    '/' :: renderPos (p ++ [.idx j]) ++ slash ++ k = '/' :: renderPos (p ++ [.idx j, .key k]) := by
+  simp [renderPos, renderSeg, slash]
+
+/-- record `j` of `P[k op v]/…` (inside the loop: `[j]`, `[k op 'v']`, further steps) -/
+theorem sel2_cond_elem (root : Val) (rl : Bool) (p : Pos) (k op t1 t2 : Str) (v : CondVal) (lc : Cls) (rs : List Val)
+    (j : Nat) (c : Cls) (kvs' : List (Str × Val)) (rest : List Str) (out : Option Val) (F : Nat)
+    (hp : PlainPos p) (hk : PlainKey k) (hkt : k ≠ sTextFn)
+    (hq : getAt root p = some (.list lc rs)) (hj : rs[j]? = some (.dict c kvs'))
+    (hs1 : splitNameIndex t1 = .ok ([], .cond k op v))
+    (ht2 : t2 = bracket (sTextFn ++ op ++ condValStr v))
+    (hs2 : splitNameIndex t2 = .ok ([], .cond sTextFn op v)) (hop : OpSpell op op)
+    (hg : ∀ kv, lookup k kvs' = some kv → textGuard kv v = false) (hrest : rest ≠ [])
+    (hcont : ∀ fu ≥ F, Sel2Out root
+      (findD fu root [] false false rest (.at (p ++ [.idx j])) rl ('/' :: renderPos (p ++ [.idx j]))) out)
+    (fuel : Nat) (hfuel : fuel ≥ F + 2 * p.length + 6) :
+    Sel2Out root
+      (findD fuel root [] false false (bracket (natStr j) :: t1 :: rest) (.at p) rl ('/' :: renderPos p))
+      (sel2Gate k op v (.dict c kvs') out) := by
+  obtain ⟨g, rfl⟩ : ∃ g, fuel = g + 2 := ⟨fuel - 2, by omega⟩
+  have hlt := sel2_lt_of_getElem? hj
+  have hq1 : getAt root (p ++ [.idx j]) = some (.dict c kvs') := sel2_getAt_snoc_idx hq hj
+  rw [find_idx_step (g + 1) root false rl p _ _ (natStr j) (j : Int) (t1 :: rest) (by simp) lc rs j hq (natStr_idxTok j)
+    (normIdx_nat hlt), sel2_found_idx]
+  cases hlk : lookup k kvs' with
+  | none =>
+    rw [find_cond_missing g root false rl _ _ t1 k op v rest c kvs' hq1 hs1 hkt hlk]
+    simpa [sel2Gate, hlk] using sel2Out_notFound root _ _ _ _ _ (by simp)
+  | some kv =>
+    rw [find_cond_step g root false rl _ _ t1 k op v rest c kvs' kv hq1 hs1 hkt hlk, ← ht2, sel2_found_idx_key]
+    have := sel2_text_up root false rl p k op t2 v lc rs j c kvs' kv rest out F hp hk hq hj hlk hs2 hop (hg kv hlk) hrest hcont
+      g (by omega)
+    simpa [sel2Gate, hlk] using this
+
+/-- record `j` of `P/k[text() op v]/../…` (inside the loop: `[j]`, `k[text() op v]`, `'..'`, further steps) -/
+theorem sel2_textform_elem (root : Val) (rl : Bool) (p : Pos) (k op t1 t2 : Str) (v : CondVal) (lc : Cls) (rs : List Val)
+    (j : Nat) (c : Cls) (kvs' : List (Str × Val)) (rest : List Str) (out : Option Val) (F : Nat)
+    (hp : PlainPos p) (hk : PlainKey k)
+    (hq : getAt root p = some (.list lc rs)) (hj : rs[j]? = some (.dict c kvs'))
+    (hs1 : splitNameIndex t1 = .ok (k, .cond sTextFn op v))
+    (ht2 : t2 = bracket (sTextFn ++ op ++ ['\''] ++ condValStr v ++ ['\'']))
+    (hs2 : splitNameIndex t2 = .ok ([], .cond sTextFn op v)) (hop : OpSpell op op)
+    (hg : ∀ kv, lookup k kvs' = some kv → textGuard kv v = false) (hrest : rest ≠ [])
+    (hcont : ∀ fu ≥ F, Sel2Out root
+      (findD fu root [] false false rest (.at (p ++ [.idx j])) rl ('/' :: renderPos (p ++ [.idx j]))) out)
+    (fuel : Nat) (hfuel : fuel ≥ F + 2 * p.length + 6) :
+    Sel2Out root
+      (findD fuel root [] false false (bracket (natStr j) :: t1 :: ['.', '.'] :: rest) (.at p) rl ('/' :: renderPos p))
+      (sel2Gate k op v (.dict c kvs') out) := by
+  obtain ⟨g, rfl⟩ : ∃ g, fuel = g + 2 := ⟨fuel - 2, by omega⟩
+  have hlt := sel2_lt_of_getElem? hj
+  have hq1 : getAt root (p ++ [.idx j]) = some (.dict c kvs') := sel2_getAt_snoc_idx hq hj
+  rw [find_idx_step (g + 1) root false rl p _ _ (natStr j) (j : Int) (t1 :: ['.', '.'] :: rest) (by simp) lc rs j hq
+    (natStr_idxTok j) (normIdx_nat hlt), sel2_found_idx]
+  cases hlk : lookup k kvs' with
+  | none =>
+    rw [find_keycond_missing g root false rl _ _ t1 k _ (['.', '.'] :: rest) c kvs' hq1 hs1 hk.ne hk.notUp hk.keyTok.notStar hlk]
+    simpa [sel2Gate, hlk] using sel2Out_notFound root _ _ _ _ _ (by simp)
+  | some kv =>
+    rw [find_keycond_step g root false rl _ _ t1 k sTextFn op v (['.', '.'] :: rest) c kvs' kv hq1 hs1 hk.ne hk.notUp
+      hk.keyTok.notStar hlk, ← ht2, sel2_found_idx_key]
+    have := sel2_text_up root false rl p k op t2 v lc rs j c kvs' kv rest out F hp hk hq hj hlk hs2 hop (hg kv hlk) hrest hcont
+      g (by omega)
+    simpa [sel2Gate, hlk] using this
+
+/-- **The `[*]` loop of a predicate selection** over the records of the list at `p`: `per` = the steps applied
+to each record (`[k op v] :: rest` or `k[text() op v] :: '..' :: rest`), `o rec` = the outcome of `rest` in
+record `rec`. -/
+theorem sel2_pred_loop (root : Val) (rl : Bool) (p : Pos) (k op : Str) (v : CondVal) (lc : Cls) (rs : List Val)
+    (per all : List Str) (o : Val → Option Val) (F : Nat) (hall : all ≠ [])
+    (hq : getAt root p = some (.list lc rs)) (hrs : ∀ r ∈ rs, isDict r = true)
+    (helem : ∀ (j : Nat) (c : Cls) (kvs' : List (Str × Val)), rs[j]? = some (.dict c kvs') → ∀ fu ≥ F,
+      Sel2Out root (findD fu root [] false false (bracket (natStr j) :: per) (.at p) rl ('/' :: renderPos p))
+        (sel2Gate k op v (.dict c kvs') (o (.dict c kvs'))))
+    (fuel : Nat) (hfuel : fuel ≥ F + rs.length + 1) :
+    ∃ r, starIdx fuel root [] false rs.length 0 per (.at p) rl ('/' :: renderPos p) [] Option.none all = .ok (root, r) ∧
+      r.isFound = !(somes (rs.map (fun rec => sel2Gate k op v rec (o rec)))).isEmpty ∧
+      (r.isFound = true → r.value = collect rl (somes (rs.map (fun rec => sel2Gate k op v rec (o rec))))) := by
+  have := starIdx_loop root [] false per (.at p) rl ('/' :: renderPos p) all hall F
+    (rs.map (fun rec => sel2Gate k op v rec (o rec))) 0 rs.length [] Option.none fuel (by simp) ?_ (by simp; omega) (by simp)
+  · simpa using this
+  · intro j hj fu hfu
+    have hj' : j < rs.length := by simpa using hj
+    have hd := hrs _ (List.getElem_mem hj')
+    cases hrj : rs[j] with
+    | dict c kvs' =>
+      have hget : rs[j]? = some (.dict c kvs') := by rw [List.getElem?_eq_getElem hj', hrj]
+      obtain ⟨r, hr, h1, h2⟩ := helem j c kvs' hget fu hfu
+      refine ⟨r, by simpa using hr, ?_, ?_⟩
+      · simp [hrj, h1]
+      · intro x hx; apply h2; simpa [hrj] using hx
+    | _ => rw [hrj] at hd; simp [isDict] at hd
+
+/-! ### a predicate step on the list at any position, any continuation -/
+
+/-- the selection a predicate step makes over `rs` when the further steps have outcome `o rec` in record `rec` -/
+def sel2Sel (k op : Str) (v : CondVal) (o : Val → Option Val) (rs : List Val) : List Val :=
+  somes (rs.map (fun rec => sel2Gate k op v rec (o rec)))
+
+/-- a selecting lookup: found exactly when something is selected, then the collected list -/
+def Sel2Coll (root : Val) (rl : Bool) (x : PyM (Val × Res)) (vals : List Val) : Prop :=
+  ∃ r, x = .ok (root, r) ∧ r.isFound = !vals.isEmpty ∧ (r.isFound = true → r.value = collect rl vals)
+
+theorem Sel2Coll.out {root : Val} {rl : Bool} {x : PyM (Val × Res)} {vals : List Val} (h : Sel2Coll root rl x vals) :
+    Sel2Out root x (if vals.isEmpty then Option.none else some (collect rl vals)) := by
+  obtain ⟨r, hr, h1, h2⟩ := h
+  refine ⟨r, hr, ?_, ?_⟩
+  · cases hv : vals.isEmpty <;> simp [h1, hv]
+  · intro x hx
+    cases hv : vals.isEmpty with
+    | true => simp [hv] at hx
+    | false =>
+      simp only [hv, Bool.false_eq_true, if_false, Option.some.injEq] at hx
+      rw [← hx]; exact h2 (by simp [h1, hv])
+
+/-- `[k op v] :: rest` on the non-empty list at `p` -/
+theorem sel2_cond_list (root : Val) (rl entry : Bool) (p : Pos) (k op T : Str) (v : CondVal) (lc : Cls) (rs : List Val)
+    (rest : List Str) (o : Val → Option Val) (F : Nat)
+    (hp : PlainPos p) (hk : PlainKey k) (hkt : k ≠ sTextFn)
+    (hq : getAt root p = some (.list lc rs)) (hrs : ∀ r ∈ rs, isDict r = true) (hne : rs ≠ [])
+    (hs1 : splitNameIndex T = .ok ([], .cond k op v))
+    (hs2 : splitNameIndex (bracket (sTextFn ++ op ++ condValStr v)) = .ok ([], .cond sTextFn op v)) (hop : OpSpell op op)
+    (hg : ∀ c kvs' kv, Val.dict c kvs' ∈ rs → lookup k kvs' = some kv → textGuard kv v = false) (hrest : rest ≠ [])
+    (hcont : ∀ (j : Nat) (c : Cls) (kvs' : List (Str × Val)), rs[j]? = some (.dict c kvs') → ∀ fu ≥ F, Sel2Out root
+      (findD fu root [] false false rest (.at (p ++ [.idx j])) rl ('/' :: renderPos (p ++ [.idx j]))) (o (.dict c kvs')))
+    (fuel : Nat) (hfuel : fuel ≥ F + 2 * p.length + rs.length + 9) :
+    Sel2Coll root rl (findD fuel root [] false entry (T :: rest) (.at p) rl ('/' :: renderPos p)) (sel2Sel k op v o rs) := by
+  obtain ⟨g, rfl⟩ : ∃ g, fuel = g + 2 := ⟨fuel - 2, by omega⟩
+  rw [find_cond_on_list (g + 1) root entry rl p _ T k op v rest lc rs hq hne hs1 hkt]
+  rw [find_star_step g root false rl p _ _ _ lc rs hq split_star]
+  apply sel2_pred_loop root rl p k op v lc rs (T :: rest) _ o (F + 2 * p.length + 6) (by simp) hq hrs _ g (by omega)
+  intro j c kvs' hj fu hfu
+  exact sel2_cond_elem root rl p k op T _ v lc rs j c kvs' rest _ F hp hk hkt hq hj hs1 rfl hs2 hop
+    (fun kv hkv => hg c kvs' kv (List.mem_of_getElem? hj) hkv) hrest (hcont j c kvs' hj) fu hfu
+
+/-- `k[text() op v] :: '..' :: rest` on the list at `p` (the `[*]` is supplied by the engine) -/
+theorem sel2_textform_list (root : Val) (rl entry : Bool) (p : Pos) (k op T : Str) (v : CondVal) (lc : Cls) (rs : List Val)
+    (rest : List Str) (o : Val → Option Val) (F : Nat)
+    (hp : PlainPos p) (hk : PlainKey k)
+    (hq : getAt root p = some (.list lc rs)) (hrs : ∀ r ∈ rs, isDict r = true)
+    (hs1 : splitNameIndex T = .ok (k, .cond sTextFn op v))
+    (hs2 : splitNameIndex (bracket (sTextFn ++ op ++ ['\''] ++ condValStr v ++ ['\''])) = .ok ([], .cond sTextFn op v))
+    (hop : OpSpell op op)
+    (hg : ∀ c kvs' kv, Val.dict c kvs' ∈ rs → lookup k kvs' = some kv → textGuard kv v = false) (hrest : rest ≠ [])
+    (hcont : ∀ (j : Nat) (c : Cls) (kvs' : List (Str × Val)), rs[j]? = some (.dict c kvs') → ∀ fu ≥ F, Sel2Out root
+      (findD fu root [] false false rest (.at (p ++ [.idx j])) rl ('/' :: renderPos (p ++ [.idx j]))) (o (.dict c kvs')))
+    (fuel : Nat) (hfuel : fuel ≥ F + 2 * p.length + rs.length + 9) :
+    Sel2Coll root rl (findD fuel root [] false entry (T :: ['.', '.'] :: rest) (.at p) rl ('/' :: renderPos p))
+      (sel2Sel k op v o rs) := by
+  obtain ⟨g, rfl⟩ : ∃ g, fuel = g + 2 := ⟨fuel - 2, by omega⟩
+  rw [find_name_on_list (g + 1) root entry rl p _ T k _ _ lc rs hq hs1 hk.ne hk.notUp]
+  rw [find_star_step g root false rl p _ _ _ lc rs hq split_star]
+  apply sel2_pred_loop root rl p k op v lc rs (T :: ['.', '.'] :: rest) _ o (F + 2 * p.length + 6) (by simp) hq hrs _ g (by omega)
+  intro j c kvs' hj fu hfu
+  exact sel2_textform_elem root rl p k op T _ v lc rs j c kvs' rest _ F hp hk hq hj hs1 rfl hs2 hop
+    (fun kv hkv => hg c kvs' kv (List.mem_of_getElem? hj) hkv) hrest (hcont j c kvs' hj) fu hfu
+
+theorem sel2_found_key (q : Pos) (name : Str) : '/' :: renderPos q ++ slash ++ name = '/' :: renderPos (q ++ [.key name]) := by
+  simp [renderPos, renderSeg, slash]
+
+theorem sel2_tok_reemit (k op v : Str) (hk : FieldKey k) (hop : OpSpell op op) (hv : PlainLit v) :
+    splitNameIndex (bracket (k ++ op ++ ['\''] ++ condValStr (.str v) ++ ['\''])) = .ok ([], .cond k op (.str v)) := by
+  have := split_cond [] k op op _ v (Or.inl rfl) hk.cond hop (.sq v) hv
+  simpa [condValStr, List.append_assoc] using this
+
+theorem sel2_tok_text_bare (op v : Str) (hop : OpSpell op op) (hv : PlainLit v) :
+    splitNameIndex (bracket (sTextFn ++ op ++ condValStr (.str v))) = .ok ([], .cond sTextFn op (.str v)) := by
+  have := split_cond [] sTextFn op op _ v (Or.inl rfl) condKey_text hop (.bare v) hv
+  simpa [condValStr, List.append_assoc] using this
+
+theorem sel2_tok_text_quoted (op v : Str) (hop : OpSpell op op) (hv : PlainLit v) :
+    splitNameIndex (bracket (sTextFn ++ op ++ ['\''] ++ condValStr (.str v) ++ ['\''])) = .ok ([], .cond sTextFn op (.str v)) := by
+  have := split_cond [] sTextFn op op _ v (Or.inl rfl) condKey_text hop (.sq v) hv
+  simpa [condValStr, List.append_assoc] using this
+
+/-- `name[k op v] :: rest` in the dict at `q` whose `name` is a non-empty list of records -/
+theorem sel2_keycond_list (root : Val) (rl entry : Bool) (q : Pos) (name k opx op vq v : Str) (cls : Cls)
+    (kvs : List (Str × Val)) (lc : Cls) (rs : List Val) (rest : List Str) (o : Val → Option Val) (F : Nat)
+    (hq : PlainPos q) (hname : PlainKey name) (hk : FieldKey k) (hop : OpSpell opx op) (hlit : LitSpell vq v) (hv : PlainLit v)
+    (hqv : getAt root q = some (.dict cls kvs)) (hl : lookup name kvs = some (.list lc rs))
+    (hrs : ∀ r ∈ rs, isDict r = true) (hne : rs ≠ [])
+    (hg : ∀ c kvs' kv, Val.dict c kvs' ∈ rs → lookup k kvs' = some kv → textGuard kv (.str v) = false) (hrest : rest ≠ [])
+    (hcont : ∀ (j : Nat) (c : Cls) (kvs' : List (Str × Val)), rs[j]? = some (.dict c kvs') → ∀ fu ≥ F, Sel2Out root
+      (findD fu root [] false false rest (.at (q ++ [.key name] ++ [.idx j])) rl ('/' :: renderPos (q ++ [.key name] ++ [.idx j])))
+      (o (.dict c kvs')))
+    (fuel : Nat) (hfuel : fuel ≥ F + 2 * q.length + rs.length + 12) :
+    Sel2Coll root rl (findD fuel root [] false entry ((name ++ bracket (k ++ opx ++ vq)) :: rest) (.at q) rl ('/' :: renderPos q))
+      (sel2Sel k op (.str v) o rs) := by
+  obtain ⟨g, rfl⟩ : ∃ g, fuel = g + 1 := ⟨fuel - 1, by omega⟩
+  have hopc := opSpell_canon hop
+  have hs0 := split_cond name k opx op vq v (Or.inr hname) hk.cond hop hlit hv
+  have hq1 : getAt root (q ++ [.key name]) = some (.list lc rs) := by rw [getAt_snoc, hqv]; simp [child, hl]
+  rw [find_keycond_step g root entry rl q _ _ name k op (.str v) rest cls kvs _ hqv hs0 hname.ne hname.notUp
+    hname.keyTok.notStar hl, sel2_found_key]
+  exact sel2_cond_list root rl false (q ++ [.key name]) k op _ (.str v) lc rs rest o F
+    (sel2_plainPos_of hq (by exact (⟨hname, trivial⟩ : PlainPos [.key name]))) hk.plain hk.notText hq1 hrs hne
+    (sel2_tok_reemit k op v hk hopc hv) (sel2_tok_text_bare op v hopc hv) hopc hg hrest hcont g (by simp; omega)
+
+/-- the continuation `f`: the field of the record -/
+theorem sel2_field_cont (root : Val) (rl : Bool) (pos : Pos) (c : Cls) (kvs' : List (Str × Val)) (f found : Str)
+    (hq : getAt root pos = some (.dict c kvs')) (hf : KeyTok f) (fu : Nat) (hfu : fu ≥ 1) :
+    Sel2Out root (findD fu root [] false false [f] (.at pos) rl found) (fieldOf f (.dict c kvs')) := by
+  obtain ⟨g, rfl⟩ : ∃ g, fu = g + 1 := ⟨fu - 1, by omega⟩
+  cases hl : lookup f kvs' with
+  | none =>
+    rw [find_key_missing g root false rl _ _ f [] c kvs' hq hf hl]
+    simpa [fieldOf, hl] using sel2Out_notFound root _ _ _ _ _ (by simp)
+  | some x =>
+    rw [find_key_last g root false rl _ _ f c kvs' x hq hf hl]
+    exact ⟨_, rfl, by simp [Res.isFound, fieldOf, hl], by intro x' hx'; simp [fieldOf, hl] at hx'; subst hx'; rfl⟩
+
+theorem sel2Sel_fieldOf (k f op : Str) (v : CondVal) (rs : List Val) :
+    sel2Sel k op v (fieldOf f) rs = somes (rs.map (condOutcome k f op v)) := by
+  unfold sel2Sel
+  congr 1
+  apply List.map_congr_left
+  intro rec _
+  exact sel2_gate_fieldOf k f op v rec
+
+/-! ### the predicate forms for the record list at any position (un-chained) -/
+
+theorem sel2_slash_render (p : Pos) : slash ++ renderPos p = '/' :: renderPos p := rfl
+
+/-- bracket form, `P` ending in a key, tree level (either the selection or — empty list — `IndexError`) -/
+theorem sel2_cond_find_key (root : Val) (rl : Bool) (p : Pos) (name k f opx op vq v : Str) (lc : Cls) (rs : List Val)
+    (hp : PlainPos p) (hname : PlainKey name) (hk : FieldKey k) (hf : PlainKey f) (hop : OpSpell opx op)
+    (hlit : LitSpell vq v) (hv : PlainLit v)
+    (hget : getAt root (p ++ [.key name]) = some (.list lc rs)) (hrs : ∀ r ∈ rs, isDict r = true)
+    (hg : ∀ c kvs' kv, Val.dict c kvs' ∈ rs → lookup k kvs' = some kv → textGuard kv (.str v) = false)
+    (fuel : Nat) (hfuel : fuel ≥ 4 * p.length + rs.length + 14) :
+    let x := findD fuel root [] false true (mergedToks p ++ [name ++ bracket (k ++ opx ++ vq), f]) (.at []) rl slash
+    (rs ≠ [] → Sel2Coll root rl x (somes (rs.map (condOutcome k f op (.str v))))) ∧ (rs = [] → x = .error .IndexError) := by
+  intro x
+  obtain ⟨cls, kvs, hpv, hl⟩ := sel2_getAt_snoc_key hget
+  have hs := spellsF_merged p root _ hp hpv
+  have hlen := mergedToks_length_le p
+  obtain ⟨fuel', e', h1, h2, heq⟩ := find_walk root rl hs [name ++ bracket (k ++ opx ++ vq), f] (by simp) fuel [] slash true rfl
+    (by omega)
+  have hx : x = findD fuel' root [] false e' [name ++ bracket (k ++ opx ++ vq), f] (.at p) rl ('/' :: renderPos p) := by
+    simpa [x, sel2_slash_render] using heq
+  refine ⟨fun hne => ?_, fun hempty => ?_⟩
+  · rw [hx, ← sel2Sel_fieldOf]
+    exact sel2_keycond_list root rl e' p name k opx op vq v cls kvs lc rs [f] (fieldOf f) 1 hp hname hk hop hlit hv hpv hl hrs hne
+      hg (by simp)
+      (fun j c kvs' hj fu hfu => sel2_field_cont root rl _ c kvs' f _ (sel2_getAt_snoc_idx hget hj) hf.keyTok fu hfu)
+      fuel' (by omega)
+  · subst hempty
+    obtain ⟨g, rfl⟩ : ∃ g, fuel' = g + 2 := ⟨fuel' - 2, by omega⟩
+    have hopc := opSpell_canon hop
+    rw [hx, find_keycond_step (g + 1) root e' rl p _ _ name k op (.str v) [f] cls kvs _ hpv
+      (split_cond name k opx op vq v (Or.inr hname) hk.cond hop hlit hv) hname.ne hname.notUp hname.keyTok.notStar hl]
+    exact find_cond_on_empty g root false rl _ _ _ k op (.str v) [f] lc hget (sel2_tok_reemit k op v hk hopc hv) hk.notText
+
+/-- bracket form, `P` ending in an index, tree level -/
+theorem sel2_cond_find_idx (root : Val) (rl : Bool) (p : Pos) (k f opx op vq v : Str) (lc : Cls) (rs : List Val)
+    (hp : PlainPos p) (hpne : p ≠ []) (hk : FieldKey k) (hf : PlainKey f) (hop : OpSpell opx op)
+    (hlit : LitSpell vq v) (hv : PlainLit v)
+    (hget : getAt root p = some (.list lc rs)) (hrs : ∀ r ∈ rs, isDict r = true)
+    (hg : ∀ c kvs' kv, Val.dict c kvs' ∈ rs → lookup k kvs' = some kv → textGuard kv (.str v) = false)
+    (fuel : Nat) (hfuel : fuel ≥ 4 * p.length + rs.length + 14) :
+    let x := findD fuel root [] false true (mergedToks p ++ [bracket (k ++ opx ++ vq), f]) (.at []) rl slash
+    (rs ≠ [] → Sel2Coll root rl x (somes (rs.map (condOutcome k f op (.str v))))) ∧ (rs = [] → x = .error .IndexError) := by
+  intro x
+  have hs := spellsF_merged p root _ hp hget
+  have hlen := mergedToks_length_le p
+  obtain ⟨fuel', e', h1, h2, heq⟩ := find_walk root rl hs [bracket (k ++ opx ++ vq), f] (by simp) fuel [] slash true rfl
+    (by omega)
+  have hx : x = findD fuel' root [] false e' [bracket (k ++ opx ++ vq), f] (.at p) rl ('/' :: renderPos p) := by
+    simpa [x, sel2_slash_render] using heq
+  have hopc := opSpell_canon hop
+  have hs1 : splitNameIndex (bracket (k ++ opx ++ vq)) = .ok ([], .cond k op (.str v)) := by
+    simpa using split_cond [] k opx op vq v (Or.inl rfl) hk.cond hop hlit hv
+  refine ⟨fun hne => ?_, fun hempty => ?_⟩
+  · rw [hx, ← sel2Sel_fieldOf]
+    exact sel2_cond_list root rl e' p k op _ (.str v) lc rs [f] (fieldOf f) 1 hp hk.plain hk.notText hget hrs hne hs1
+      (sel2_tok_text_bare op v hopc hv) hopc hg (by simp)
+      (fun j c kvs' hj fu hfu => sel2_field_cont root rl _ c kvs' f _ (sel2_getAt_snoc_idx hget hj) hf.keyTok fu hfu)
+      fuel' (by omega)
+  · subst hempty
+    obtain ⟨g, rfl⟩ : ∃ g, fuel' = g + 1 := ⟨fuel' - 1, by omega⟩
+    rw [hx]
+    exact find_cond_on_empty g root e' rl _ _ _ k op (.str v) [f] lc hget hs1 hk.notText
+
+/-- text form, tree level -/
+theorem sel2_textform_find (root : Val) (rl : Bool) (p : Pos) (k f opx op vq v : Str) (lc : Cls) (rs : List Val)
+    (hp : PlainPos p) (hk : FieldKey k) (hf : PlainKey f) (hop : OpSpell opx op)
+    (hlit : LitSpell vq v) (hv : PlainLit v)
+    (hget : getAt root p = some (.list lc rs)) (hrs : ∀ r ∈ rs, isDict r = true)
+    (hg : ∀ c kvs' kv, Val.dict c kvs' ∈ rs → lookup k kvs' = some kv → textGuard kv (.str v) = false)
+    (fuel : Nat) (hfuel : fuel ≥ 4 * p.length + rs.length + 14) :
+    Sel2Coll root rl
+      (findD fuel root [] false true (mergedToks p ++ [k ++ bracket (sTextFn ++ opx ++ vq), ['.', '.'], f]) (.at []) rl slash)
+      (somes (rs.map (condOutcome k f op (.str v)))) := by
+  have hs := spellsF_merged p root _ hp hget
+  have hlen := mergedToks_length_le p
+  obtain ⟨fuel', e', h1, h2, heq⟩ := find_walk root rl hs [k ++ bracket (sTextFn ++ opx ++ vq), ['.', '.'], f] (by simp) fuel []
+    slash true rfl (by omega)
+  have hopc := opSpell_canon hop
+  rw [heq, ← sel2Sel_fieldOf]
+  simp only [List.nil_append, sel2_slash_render]
+  exact sel2_textform_list root rl e' p k op _ (.str v) lc rs [f] (fieldOf f) 1 hp hk.plain hget hrs
+    (split_cond k sTextFn opx op vq v (Or.inr hk.plain) condKey_text hop hlit hv) (sel2_tok_text_quoted op v hopc hv) hopc hg
+    (by simp)
+    (fun j c kvs' hj fu hfu => sel2_field_cont root rl _ c kvs' f _ (sel2_getAt_snoc_idx hget hj) hf.keyTok fu hfu)
+    fuel' (by omega)
+
+theorem sel2_gBr_cond (k opx op vq v : Str) (hk : CondKey k) (hop : OpSpell opx op) (hlit : LitSpell vq v) (hv : PlainLit v) :
+    GBr (k ++ opx ++ vq) :=
+  ⟨fun c hc => (cond_text_chars k opx op vq v hk hop hlit hv c hc).1, fun c hc => (cond_text_chars k opx op vq v hk hop hlit hv c hc).2⟩
+
+/-- API layer from `Sel2Coll` / `IndexError` -/
+theorem sel2_api (cls : Cls) (kvs : List (Str × Val)) (xp : Str) (toks : List Str) (vals : List Val) (d : Val) (fuel : Nat)
+    (hq : startsWith xp ['?'] = false) (hpc : hasPathChar xp = true) (htok : tokenize xp = toks)
+    (hfind : ∀ rl, Sel2Coll (.dict cls kvs) rl (findD fuel (.dict cls kvs) [] false true toks (.at []) rl slash) vals ∨
+      (vals = [] ∧ findD fuel (.dict cls kvs) [] false true toks (.at []) rl slash = .error .IndexError)) :
+    get fuel (.dict cls kvs) xp d = (.dict cls kvs, .ok (if vals.isEmpty then d else .list .n0 vals)) ∧
+    getItem fuel (.dict cls kvs) xp = (.dict cls kvs, if vals.isEmpty then .error .IndexError else .ok (.list .n0 vals)) ∧
+    first fuel (.dict cls kvs) xp d = (.dict cls kvs, .ok (firstOf vals d)) := by
+  by_cases hall : ∀ rl, Sel2Coll (.dict cls kvs) rl (findD fuel (.dict cls kvs) [] false true toks (.at []) rl slash) vals
+  · exact select_api cls kvs xp toks vals d fuel hq hpc htok hall
+  · have hv : vals = [] := by
+      apply Classical.byContradiction
+      intro hne
+      apply hall
+      intro rl
+      rcases hfind rl with h | ⟨h, _⟩
+      · exact h
+      · exact absurd h hne
+    subst hv
+    have herr : ∀ rl, findD fuel (.dict cls kvs) [] false true toks (.at []) rl slash = .error .IndexError ∨
+        Sel2Coll (.dict cls kvs) rl (findD fuel (.dict cls kvs) [] false true toks (.at []) rl slash) [] := by
+      intro rl
+      rcases hfind rl with h | ⟨_, h⟩
+      · exact Or.inr h
+      · exact Or.inl h
+    -- both outcomes are the same observable miss
+    have key : ∀ (raise rl : Bool), getCore fuel (.dict cls kvs) xp d raise rl
+        = (.dict cls kvs, if raise then .error .IndexError else .ok d) := by
+      intro raise rl
+      rcases herr rl with h | ⟨r, hr, hf, _⟩
+      · exact getCore_of_find_err cls kvs xp toks d raise rl fuel hq hpc htok h
+      · rw [getCore_of_find cls kvs xp toks d raise rl fuel r hq hpc htok hr]
+        have : r.isFound = false := by simpa using hf
+        simp [this]
+    have key0 : ∀ (rl : Bool), getCore fuel (.dict cls kvs) xp Val.none true rl = (.dict cls kvs, .error .IndexError) := by
+      intro rl
+      rcases herr rl with h | ⟨r, hr, hf, _⟩
+      · simpa using getCore_of_find_err cls kvs xp toks Val.none true rl fuel hq hpc htok h
+      · rw [getCore_of_find cls kvs xp toks Val.none true rl fuel r hq hpc htok hr]
+        have : r.isFound = false := by simpa using hf
+        simp [this]
+    refine ⟨?_, ?_, ?_⟩
+    · rw [get, key false true]; rfl
+    · rw [getItem, key0 true]; rfl
+    · rw [first, key false false]
+      simp only [Bool.false_eq_true, if_false, firstOf]
+      cases d with
+      | list c xs =>
+        cases xs with
+        | nil => rfl
+        | cons x xs => cases xs <;> rfl
+      | _ => rfl
+
+/-- **`P[k op v]/f` for the record list at any position** -/
+theorem sel2_cond_api (cls : Cls) (kvs : List (Str × Val)) (p : Pos) (k f opx op vq v : Str) (lc : Cls) (rs : List Val) (d : Val)
+    (hp : PlainPos p) (hne : p ≠ []) (hk : FieldKey k) (hf : PlainKey f) (hop : OpSpell opx op) (hlit : LitSpell vq v)
+    (hv : PlainLit v) (hget : getAt (.dict cls kvs) p = some (.list lc rs)) (hrs : ∀ r ∈ rs, isDict r = true)
+    (hg : ∀ c kvs' kv, Val.dict c kvs' ∈ rs → lookup k kvs' = some kv → textGuard kv (.str v) = false)
+    (fuel : Nat) (hfuel : fuel ≥ 4 * p.length + rs.length + 14) :
+    let xp := slash ++ renderPos p ++ bracket (k ++ opx ++ vq) ++ slash ++ f
+    let vals := somes (rs.map (condOutcome k f op (.str v)))
+    get fuel (.dict cls kvs) xp d = (.dict cls kvs, .ok (if vals.isEmpty then d else .list .n0 vals)) ∧
+    getItem fuel (.dict cls kvs) xp = (.dict cls kvs, if vals.isEmpty then .error .IndexError else .ok (.list .n0 vals)) ∧
+    first fuel (.dict cls kvs) xp d = (.dict cls kvs, .ok (firstOf vals d)) := by
+  intro xp vals
+  have hxp : xp = '/' :: sel2Render (sel2Embed p ++ [.br (k ++ opx ++ vq), .key f]) := by
+    rw [sel2_render_append, sel2_render_embed]
+    simp [xp, sel2Render, sel2RenderSeg, slash]
+  have hgood : GoodG (sel2Embed p ++ [.br (k ++ opx ++ vq), .key f]) :=
+    (sel2_good_embed p hp).append ⟨sel2_gBr_cond k opx op vq v hk.cond hop hlit hv, hf.gKey, trivial⟩
+  have htok0 : tokenize xp = sel2Toks (sel2Embed p ++ [.br (k ++ opx ++ vq), .key f]) := by rw [hxp]; exact sel2_tokenize _ hgood
+  have hq : startsWith xp ['?'] = false := by rw [hxp]; exact sel2_noQ_cons _
+  have hpc : hasPathChar xp = true := by rw [hxp]; exact sel2_hasPathChar_cons _
+  have hempty : rs = [] → vals = [] := by intro h; simp [vals, h, somes]
+  obtain ⟨p', s, rfl⟩ : ∃ p' s, p = p' ++ [s] := ⟨p.dropLast, p.getLast hne, (List.dropLast_concat_getLast hne).symm⟩
+  obtain ⟨hp', hs⟩ := sel2_plainPos_append hp
+  cases s with
+  | key name =>
+    have hname : PlainKey name := hs.1
+    have htok : tokenize xp = mergedToks p' ++ [name ++ bracket (k ++ opx ++ vq), f] := by
+      rw [htok0, sel2_embed_append]
+      simp only [sel2Embed, List.append_assoc, List.cons_append, List.nil_append]
+      rw [sel2_toks_append_key_br, sel2_toks_embed]
+      simp [sel2Toks]
+    apply sel2_api cls kvs xp _ vals d fuel hq hpc htok
+    intro rl
+    have := sel2_cond_find_key (.dict cls kvs) rl p' name k f opx op vq v lc rs hp' hname hk hf hop hlit hv hget hrs hg fuel
+      (by simp at hfuel; omega)
+    by_cases hr : rs = []
+    · exact Or.inr ⟨hempty hr, this.2 hr⟩
+    · exact Or.inl (this.1 hr)
+  | idx n =>
+    have htok : tokenize xp = mergedToks (p' ++ [.idx n]) ++ [bracket (k ++ opx ++ vq), f] := by
+      rw [htok0, sel2_embed_append]
+      simp only [sel2Embed, List.append_assoc, List.cons_append, List.nil_append]
+      rw [sel2_toks_append_br_br, ← sel2_toks_embed, sel2_embed_append]
+      simp [sel2Toks, sel2Embed]
+    apply sel2_api cls kvs xp _ vals d fuel hq hpc htok
+    intro rl
+    have := sel2_cond_find_idx (.dict cls kvs) rl (p' ++ [.idx n]) k f opx op vq v lc rs hp hne hk hf hop hlit hv hget hrs hg fuel hfuel
+    by_cases hr : rs = []
+    · exact Or.inr ⟨hempty hr, this.2 hr⟩
+    · exact Or.inl (this.1 hr)
+
+/-- **`P/k[text() op v]/../f` for the record list at any position** -/
+theorem sel2_textform_api (cls : Cls) (kvs : List (Str × Val)) (p : Pos) (k f opx op vq v : Str) (lc : Cls) (rs : List Val) (d : Val)
+    (hp : PlainPos p) (hk : FieldKey k) (hf : PlainKey f) (hop : OpSpell opx op) (hlit : LitSpell vq v)
+    (hv : PlainLit v) (hget : getAt (.dict cls kvs) p = some (.list lc rs)) (hrs : ∀ r ∈ rs, isDict r = true)
+    (hg : ∀ c kvs' kv, Val.dict c kvs' ∈ rs → lookup k kvs' = some kv → textGuard kv (.str v) = false)
+    (fuel : Nat) (hfuel : fuel ≥ 4 * p.length + rs.length + 14) :
+    let xp := slash ++ renderPos p ++ slash ++ k ++ bracket (sTextFn ++ opx ++ vq) ++ slash ++ ['.', '.'] ++ slash ++ f
+    let vals := somes (rs.map (condOutcome k f op (.str v)))
+    get fuel (.dict cls kvs) xp d = (.dict cls kvs, .ok (if vals.isEmpty then d else .list .n0 vals)) ∧
+    getItem fuel (.dict cls kvs) xp = (.dict cls kvs, if vals.isEmpty then .error .IndexError else .ok (.list .n0 vals)) ∧
+    first fuel (.dict cls kvs) xp d = (.dict cls kvs, .ok (firstOf vals d)) := by
+  intro xp vals
+  have hxp : xp = '/' :: sel2Render (sel2Embed p ++ [.key k, .br (sTextFn ++ opx ++ vq), .key ['.', '.'], .key f]) := by
+    rw [sel2_render_append, sel2_render_embed]
+    simp [xp, sel2Render, sel2RenderSeg, slash]
+  have hgood : GoodG (sel2Embed p ++ [.key k, .br (sTextFn ++ opx ++ vq), .key ['.', '.'], .key f]) :=
+    (sel2_good_embed p hp).append
+      ⟨hk.plain.gKey, sel2_gBr_cond sTextFn opx op vq v condKey_text hop hlit hv, sel2_gKey_up, hf.gKey, trivial⟩
+  have htok : tokenize xp = mergedToks p ++ [k ++ bracket (sTextFn ++ opx ++ vq), ['.', '.'], f] := by
+    rw [hxp, sel2_tokenize _ hgood, sel2_toks_append_key_br, sel2_toks_embed]
+    simp [sel2Toks]
+  apply select_api cls kvs xp _ vals d fuel (by rw [hxp]; exact sel2_noQ_cons _) (by rw [hxp]; exact sel2_hasPathChar_cons _) htok
+  intro rl
+  exact sel2_textform_find (.dict cls kvs) rl p k f opx op vq v lc rs hp hk hf hop hlit hv hget hrs hg fuel hfuel
+
 end N0.XPath
